@@ -45,11 +45,9 @@ impl SEv {
 
 /// ASCII character of a key (for readable replays only), from the generated table
 pub fn key_char(k: u16) -> Option<String> {
-    KEYCHARS.with(|m| m.borrow().get(&k).map(|c| c.to_string()))
+    KEYCHARS.get().and_then(|m| m.get(&k).map(|c| c.to_string()))
 }
-thread_local! {
-    pub static KEYCHARS: std::cell::RefCell<std::collections::HashMap<u16, char>> = std::cell::RefCell::new(Default::default());
-}
+pub static KEYCHARS: std::sync::OnceLock<std::collections::HashMap<u16, char>> = std::sync::OnceLock::new();
 pub fn load_keychars(meta: &str) -> std::collections::HashMap<char, u16> {
     let m: Value = serde_json::from_str(&std::fs::read_to_string(meta).unwrap()).unwrap();
     let mut inv = std::collections::HashMap::new();
@@ -62,7 +60,7 @@ pub fn load_keychars(meta: &str) -> std::collections::HashMap<char, u16> {
         let keep = inv.get(&c).map(|&old: &u16| !(0x47..=0x53).contains(&old) && old != 0x37 && old != 0x0E35 && old != 0x0E0D).unwrap_or(false);
         if !keep { inv.insert(c, k); }
     }
-    KEYCHARS.with(|kc| *kc.borrow_mut() = fwd);
+    let _ = KEYCHARS.set(fwd);
     inv
 }
 
@@ -93,13 +91,28 @@ pub fn parse_map(bytes: &[u8]) -> Option<Map> {
 pub struct Worker2 {
     pub model: Model,
     pub oracle: Oracle,
+    /// a second model process + oracle for contexts created without a database directory
+    pub nodb: Option<(Model, Oracle)>,
 }
 impl Worker2 {
     pub fn new(data: std::sync::Arc<Data>) -> Worker2 {
-        Worker2 { model: Model::new(), oracle: Oracle::new(data) }
+        Worker2 { model: Model::new(), oracle: Oracle::new(data), nodb: None }
     }
     pub fn ask(&mut self, req: &str) -> Result<String, String> {
         self.model.ask_with(req, &mut self.oracle)
+    }
+    pub fn ask_db(&mut self, database: bool, req: &str) -> Result<String, String> {
+        if database {
+            self.model.ask_with(req, &mut self.oracle)
+        } else {
+            if self.nodb.is_none() {
+                let mut o = Oracle::new(self.oracle.data.clone());
+                o.with_db = false;
+                self.nodb = Some((Model::new(), o));
+            }
+            let (m, o) = self.nodb.as_mut().unwrap();
+            m.ask_with(req, o)
+        }
     }
 }
 
@@ -137,7 +150,7 @@ pub struct Session {
     pub opts: Opts,
     pub cfg: Cfg,
     pub ctx: Ctx,
-    pub dir: Scratch,
+    pub dir: Option<Scratch>,
     pub history: Vec<SEv>,
     pub initial: Value,
     loaded_mtime: Option<SystemTime>,
@@ -171,9 +184,16 @@ impl Session {
     }
 
     /// Creates the user directory with the given files, the context and the model session.
-    pub fn new(w: &mut Worker2, mut opts: Opts, uac: Option<&Map>, sels: Option<&Map>, tag: &str) -> Result<Session, String> {
-        let dir = Scratch::new(tag);
-        opts.user_home = dir.path().to_path_buf();
+    /// A new context over the user-data directory of `other` (same files), with `other`'s current options.
+    pub fn new_beside(w: &mut Worker2, other: &Session, tag: &str) -> Result<Session, String> {
+        Session::create(w, other.opts.clone(), None, None, tag, Some(other.opts.user_home.clone()))
+    }
+    pub fn new(w: &mut Worker2, opts: Opts, uac: Option<&Map>, sels: Option<&Map>, tag: &str) -> Result<Session, String> {
+        Session::create(w, opts, uac, sels, tag, None)
+    }
+    fn create(w: &mut Worker2, mut opts: Opts, uac: Option<&Map>, sels: Option<&Map>, tag: &str, home: Option<std::path::PathBuf>) -> Result<Session, String> {
+        let dir = if home.is_none() { Some(Scratch::new(tag)) } else { None };
+        opts.user_home = home.unwrap_or_else(|| dir.as_ref().unwrap().path().to_path_buf());
         std::fs::create_dir_all(opts.user_dir()).map_err(|e| e.to_string())?;
         if let Some(m) = uac { std::fs::write(opts.user_dir().join("autocorrect.json"), map_json(m)).map_err(|e| e.to_string())?; }
         if let Some(m) = sels { std::fs::write(opts.user_dir().join("phonetic-candidate-selection.json"), map_json(m)).map_err(|e| e.to_string())?; }
@@ -181,7 +201,6 @@ impl Session {
         let layout_tag = if phonetic { "avro".to_string() } else if opts.layout.ends_with("Probhat.json") { "p".into() } else { "s".into() };
         let cfg = Cfg::new(&opts);
         let ctx = Ctx::new(&cfg)?;
-        w.oracle.with_db = opts.database;
         let initial = json!({"layout": opts.layout, "database": opts.database, "option_bits": if phonetic { pbits(&opts) } else { xbits(&opts) },
             "options": format!("{:?}", opts), "user_autocorrect": uac.map(|m| map_json(m)), "selections": sels.map(|m| map_json(m))});
         let mut s = Session { phonetic, layout_tag, opts, cfg, ctx, dir, history: vec![], initial, loaded_mtime: None, clock: 0, model_dead: false, id: format!("s{}", NEXT_ID.fetch_add(1, std::sync::atomic::Ordering::Relaxed)) };
@@ -194,9 +213,9 @@ impl Session {
             let (t, uac) = self.uac_state();
             self.loaded_mtime = t;
             let sels = self.sels_on_disk();
-            w.ask(&format!("PNEW {} {} {} {}", self.id, pbits(&self.opts), map_tok(&uac), map_tok(&sels))).map(|_| ())
+            w.ask_db(self.opts.database, &format!("PNEW {} {} {} {}", self.id, pbits(&self.opts), map_tok(&uac), map_tok(&sels))).map(|_| ())
         } else {
-            w.ask(&format!("XNEW {} {} {}", self.id, self.layout_tag, xbits(&self.opts))).map(|_| ())
+            w.ask_db(self.opts.database, &format!("XNEW {} {} {}", self.id, self.layout_tag, xbits(&self.opts))).map(|_| ())
         }
     }
 
@@ -258,7 +277,7 @@ impl Session {
         let model = if self.model_dead { "DEAD".to_string() } else {
             match ev {
                 SEv::Restart => match self.model_new(w) { Ok(()) => "U:0".to_string(), Err(e) => format!("E {}", e) },
-                _ => match w.ask(&format!("{} {} {}", if self.phonetic { "PEV" } else { "XEV" }, self.id, mev.unwrap())) { Ok(r) => r, Err(e) => format!("E {}", e) },
+                _ => match w.ask_db(self.opts.database, &format!("{} {} {}", if self.phonetic { "PEV" } else { "XEV" }, self.id, mev.unwrap())) { Ok(r) => r, Err(e) => format!("E {}", e) },
             }
         };
         if model == "PANIC" || model.starts_with("E ") { self.model_dead = true; }
@@ -266,7 +285,7 @@ impl Session {
     }
 
     pub fn model_sels(&mut self, w: &mut Worker2) -> Option<Map> {
-        let r = w.ask(&format!("PSELS {}", self.id)).ok()?;
+        let r = w.ask_db(self.opts.database, &format!("PSELS {}", self.id)).ok()?;
         if r == "-" { return Some(vec![]); }
         let mut m: Map = r.split(',').filter_map(|kv| kv.split_once('=')).map(|(k, v)| (untok(k), untok(v))).collect();
         m.sort();
